@@ -273,7 +273,9 @@ func main() {
 			emit(c, "dom-exh5s", dl5[c.Rng.Intn(len(dl5))], dl5[c.Rng.Intn(len(dl5))])
 		}
 	}
-	// 4. random
+	// 4. large lists
+	scaleMerges(c)
+	// 5. random
 	n := c.Count(6000, 80000)
 	for i := 0; i < n; i++ {
 		switch c.Rng.Intn(8) {
